@@ -107,16 +107,19 @@ QB(S, b) ==
   LET s == S.buf[b]
       n == Len(s)
       fz == S.fs[b]
-  IN [ n  |-> Bytes(s),                                     \* evbuffer_get_length
-       c  |-> Str(s),                                       \* content read from the chain list + evbuffer_peek(-1)
-       co |-> IF fz /\ n > 0 THEN "!" ELSE Str(s),          \* evbuffer_copyout(everything)
-       sf |-> [i \in 1..(n + 1) |-> IF fz /\ i <= n THEN "!" ELSE Str(Drop(s, i - 1))],   \* ptr_set(SET) + copyout_from
-       pk |-> [i \in 1..(n + 1) |-> Str(Drop(s, i - 1))],   \* ptr_set(SET) + peek(-1, ptr)
-       pa |-> [i \in 1..(n + 1) |-> IF i <= n THEN BP(s, i) ELSE -1],   \* ptr_set(ADD to next boundary / 1 past end)
-       se |-> [k \in 1..Len(Pats) |-> [i \in 1..(n + 1) |-> PosB(s, First(s, Pats[k], i - 1, n))]],
+      bp == [i \in 0..n |-> BP(s, i)]
+      PB(i) == IF i < 0 THEN -1 ELSE bp[i]
+      suf == [i \in 1..(n + 1) |-> Str(Drop(s, i - 1))]
+  IN [ n  |-> bp[n],                                        \* evbuffer_get_length
+       c  |-> suf[1],                                       \* content read from the chain list
+       co |-> IF fz /\ n > 0 THEN "!" ELSE suf[1],          \* evbuffer_copyout(everything)
+       sf |-> [i \in 1..(n + 1) |-> IF fz /\ i <= n THEN "!" ELSE suf[i]],   \* ptr_set(SET) + copyout_from
+       pk |-> suf,                                          \* ptr_set(SET) + peek(-1, ptr)
+       pa |-> [i \in 1..(n + 1) |-> IF i <= n THEN bp[i] ELSE -1],   \* ptr_set(ADD to next boundary / 1 past end)
+       se |-> [k \in 1..Len(Pats) |-> [i \in 1..(n + 1) |-> PB(First(s, Pats[k], i - 1, n))]],
        sr |-> IF n = 0 THEN <<>>
-              ELSE [k \in 1..Len(Pats) |-> [i \in 1..(n + 1) |-> PosB(s, First(s, Pats[k], i - 1, n - 1))]],
-       el |-> [y \in 1..5 |-> [i \in 1..(n + 1) |-> EolB(s, i - 1, y - 1)]],
+              ELSE [k \in 1..Len(Pats) |-> [i \in 1..(n + 1) |-> PB(First(s, Pats[k], i - 1, n - 1))]],
+       el |-> [y \in 1..5 |-> [i \in 1..(n + 1) |-> LET e == Eol(s, i - 1, y - 1) IN <<PB(e[1]), e[2]>>]],
        fr |-> <<IF S.fs[b] THEN 1 ELSE 0, IF S.fe[b] THEN 1 ELSE 0>> ]
 
 ----------------------------------------------------------------------------
@@ -145,26 +148,25 @@ Reports(S, b, order, info, deferredRun) ==
        IN (IF c.on /\ want THEN <<[b |-> b, cb |-> k, o |-> info[1], a |-> info[2], d |-> info[3]]>> ELSE <<>>)
           \o Reports(S, b, Tail(order), info, deferredRun)
 
-(* evbuffer_invoke_callbacks_ after buffer b changed by (add, del) *)
+(* evbuffer_invoke_callbacks_ after buffer b changed by (add, del); it is also called
+   by some operations when nothing changed (add of 0 bytes, drain(0) ...), which in
+   deferred mode still schedules the deferred run (matters for the order of runs). *)
+Sched(S, b) == IF \E i \in 1..Len(S.pq) : S.pq[i] = b THEN S ELSE [S EXCEPT !.pq = Append(@, b)]
 Changed(S, b, add, del) ==
-  IF CbMode = 0 \/ (add = 0 /\ del = 0 /\ S.acc[b] = <<0, 0>>) THEN S
+  IF CbMode = 0 THEN S
   ELSE IF ~AnyCb(S, b) THEN [S EXCEPT !.acc[b] = <<0, 0>>]
   ELSE LET a1 == S.acc[b][1] + add
            d1 == S.acc[b][2] + del
            len == Bytes(S.buf[b])
-           info == <<len + d1 - a1, a1, d1>>
-       IN IF a1 = 0 /\ d1 = 0 THEN S
-          ELSE IF CbMode = 1
-          THEN [S EXCEPT !.acc[b] = <<0, 0>>,
-                         !.cblog = @ \o Reports(S, b, CbOrder(S, b), info, FALSE)]
-          ELSE \* deferred: schedule; NODEFER callbacks are invoked now.  The property (C13)
-               \* requires that no change is reported twice, so a NODEFER callback is told
-               \* only what it has not been told yet: nacc tracks that separately.
-               LET na == S.nacc[b][1] + add
-                   nd == S.nacc[b][2] + del
-                   ninfo == <<len + nd - na, na, nd>>
-               IN [S EXCEPT !.acc[b] = <<a1, d1>>, !.pend[b] = TRUE, !.nacc[b] = <<0, 0>>,
-                            !.cblog = @ \o (IF na = 0 /\ nd = 0 THEN <<>> ELSE Reports(S, b, CbOrder(S, b), ninfo, FALSE))]
+       IN IF CbMode = 1
+          THEN (IF a1 = 0 /\ d1 = 0 THEN S
+                ELSE [S EXCEPT !.acc[b] = <<0, 0>>,
+                               !.cblog = @ \o Reports(S, b, CbOrder(S, b), <<len + d1 - a1, a1, d1>>, FALSE)])
+          ELSE \* deferred: accumulate and schedule; NODEFER callbacks are invoked now.  C13 requires that
+               \* no change is reported twice, so a NODEFER callback is told the change of this call only.
+               [Sched(S, b) EXCEPT !.acc[b] = <<a1, d1>>,
+                                   !.cblog = @ \o (IF add = 0 /\ del = 0 THEN <<>>
+                                                   ELSE Reports(S, b, CbOrder(S, b), <<len + del - add, add, del>>, FALSE))]
 
 ----------------------------------------------------------------------------
 InitSt ==
@@ -173,8 +175,8 @@ InitSt ==
     sp |-> [b \in Bufs |-> FALSE],          \* may hold file-segment / multicast chains
     cb |-> [b \in Bufs |-> [k \in 1..NCB |-> InitCb]],
     cbo |-> [b \in Bufs |-> <<>>],
-    acc |-> [b \in Bufs |-> <<0, 0>>], nacc |-> [b \in Bufs |-> <<0, 0>>],
-    pend |-> [b \in Bufs |-> FALSE],
+    acc |-> [b \in Bufs |-> <<0, 0>>],
+    pq |-> <<>>,                             \* buffers whose deferred run is scheduled, in scheduling order
     cblog |-> <<>> ]
 
 SetBuf(S, b, s) == [S EXCEPT !.buf[b] = s, !.sp[b] = IF s = <<>> THEN FALSE ELSE @]
@@ -278,21 +280,20 @@ ApplyOp(S, op) ==
     [] op.a = "cbflag" ->             \* op.f: 1 ENABLED 2 NODEFER; op.v: 1 set 0 clear
          R((IF op.f = 1 THEN [S EXCEPT !.cb[b][op.k].en = (op.v = 1)]
                         ELSE [S EXCEPT !.cb[b][op.k].nd = (op.v = 1)]), 0)
-    [] op.a = "loop" ->               \* event_base_loop(NONBLOCK): deferred callbacks run
-         LET RECURSIVE Run(_, _)
-             Run(T, bb) ==
-               IF bb > NB THEN T
-               ELSE IF ~T.pend[bb] THEN Run(T, bb + 1)
-               ELSE LET a1 == T.acc[bb][1]
+    [] op.a = "loop" ->               \* event_base_loop(NONBLOCK): the scheduled deferred runs, in order
+         LET RECURSIVE Run(_)
+             Run(T) ==
+               IF T.pq = <<>> THEN T
+               ELSE LET bb == Head(T.pq)
+                        a1 == T.acc[bb][1]
                         d1 == T.acc[bb][2]
                         len == Bytes(T.buf[bb])
-                        T1 == [T EXCEPT !.pend[bb] = FALSE]
-                    IN IF ~AnyCb(T, bb) THEN Run([T1 EXCEPT !.acc[bb] = <<0, 0>>], bb + 1)
-                       ELSE IF a1 = 0 /\ d1 = 0 THEN Run(T1, bb + 1)
+                        T1 == [T EXCEPT !.pq = Tail(@)]
+                    IN IF ~AnyCb(T, bb) THEN Run([T1 EXCEPT !.acc[bb] = <<0, 0>>])
+                       ELSE IF a1 = 0 /\ d1 = 0 THEN Run(T1)
                        ELSE Run([T1 EXCEPT !.acc[bb] = <<0, 0>>,
-                                           !.cblog = @ \o Reports(T, bb, CbOrder(T, bb), <<len + d1 - a1, a1, d1>>, TRUE)],
-                                bb + 1)
-         IN R(Run(S, 1), 0)
+                                           !.cblog = @ \o Reports(T, bb, CbOrder(T, bb), <<len + d1 - a1, a1, d1>>, TRUE)])
+         IN R(Run(S), 0)
     [] OTHER -> R(S, -99)
 
 ----------------------------------------------------------------------------
@@ -315,7 +316,10 @@ OpsOf(S, fam) ==
     [] fam = "rmbuf" -> UNION {{[a |-> "rmbuf", b |-> b, s |-> s, n |-> n, nb |-> NB_(S.buf[b], n)] :
                                   n \in NChoices(S.buf[b]), s \in Bufs} : b \in Bufs}
     [] fam = "addbufref" -> {[a |-> "addbufref", b |-> b, s |-> s] : b \in Bufs, s \in {x \in Bufs : ~S.sp[x]}}
-    [] fam = "addfile" -> {[a |-> "addfile", b |-> b, d |-> FileData, off |-> off, len |-> ln, m |-> m] :
+    [] fam = "addfile" -> {[a |-> "addfile", b |-> b, d |-> FileData, off |-> off, len |-> ln, m |-> m,
+                              ob |-> NB_(FileData, off),
+                              lb |-> IF ln < 0 THEN -1 ELSE IF off + ln <= Len(FileData) THEN Bytes(SubSeq(FileData, off + 1, off + ln))
+                                     ELSE Bytes(FileData) + 3] :
                              b \in Bufs, off \in {0, 1, 5}, ln \in {-1, 0, 2, 4}, m \in {0, 1}}
     [] fam = "drain" -> UNION {{[a |-> "drain", b |-> b, n |-> n, nb |-> NB_(S.buf[b], n)] : n \in NChoices(S.buf[b])} : b \in Bufs}
     [] fam = "remove" -> UNION {{[a |-> "remove", b |-> b, n |-> n, nb |-> NB_(S.buf[b], n)] : n \in NChoices(S.buf[b])} : b \in Bufs}
@@ -337,6 +341,9 @@ OpsOf(S, fam) ==
 OpSane(S, op) ==
   /\ (op.a \in {"add", "addref", "prepend", "printf", "rescommit"} => Fits(S, op.b, op.d))
   /\ (op.a = "addiov" => Fits(S, op.b, op.d \o op.d2))
+  \* AvoidKnown: reserve_space(0, vec, n >= 2) on a buffer whose last chain is full trips an assertion
+  \* (finding reserve-zero-full-chain); it is replayed separately under "rz0" \in Acts
+  /\ (op.a = "rescommit" /\ op.nb = 0 /\ op.nv > 1 => "rz0" \in Acts)
   /\ (op.a = "addfile" => Len(S.buf[op.b]) + 4 <= MaxLen)
   /\ (op.a \in {"addbuf", "prependbuf", "addbufref"} => (op.s # op.b => Len(S.buf[op.b]) + Len(S.buf[op.s]) <= MaxLen))
   /\ (op.a = "rmbuf" => Len(S.buf[op.s]) + NClip(S.buf[op.b], op.n) <= MaxLen)
@@ -351,6 +358,7 @@ Obs(S, o) == IF CbMode = 0 THEN o @@ [q |-> [b \in Bufs |-> QB(S, b)]]
 
 Do(fam) ==
   /\ fam \in Acts
+  /\ Len(hist) < D
   /\ \E op \in OpsOf(st, fam) :
        /\ OpSane(st, op)
        /\ LET Rr == ApplyOp([st EXCEPT !.cblog = <<>>], op)
@@ -428,7 +436,7 @@ ReportConsistent ==
 AccBounded == \A b \in Bufs : st.acc[b][1] >= 0 /\ st.acc[b][2] >= 0
 (* deferred: pending accumulators are reported by the next loop; nothing pending after it *)
 LoopFlushes == [][(Len(hist') > Len(hist) /\ hist'[Len(hist')].a = "loop")
-                    => \A b \in Bufs : ~st'.pend[b] /\ (AnyCb(st, b) => st'.acc[b] = <<0, 0>>)]_vars
+                    => st'.pq = <<>> /\ \A b \in Bufs : (st.acc[b] # <<0, 0>> => b \in {st.pq[i] : i \in 1..Len(st.pq)}) ]_vars
 
 Inv == TypeOK /\ SearchSound /\ EolSound /\ ReportConsistent /\ AccBounded
 
